@@ -5,9 +5,9 @@
 # against the patched worktree.  Every check must stay silent (exit 0, no VIOLATION line).
 # Stores patch, notes and meta.json under /verif/seeded/benign-K/.
 K=$1; shift; CHECKS=${*:-C01 C02 C03 C04 C05 C06 C07 C08 C09 C10 C11 C12 C13 C14 C15 C16 C17 C18 C19 C20}
-SRC=/tmp/seed/BEN/out/$K
-WT=/tmp/seedrun/benign-$K
-VS=/tmp/vs/benign-$K
+SRC=${BENDIR:-/tmp/seed/BEN}/out/$K; TAG=${BENTAG:-benign}
+WT=/tmp/seedrun/$TAG-$K
+VS=/tmp/vs/$TAG-$K
 [ -f "$SRC/patch.diff" ] || { echo "no patch at $SRC"; exit 2; }
 rm -rf "$WT"; mkdir -p /tmp/seedrun /tmp/vs
 git -C /repo worktree add -q --detach "$WT" HEAD || exit 2
@@ -23,13 +23,13 @@ for C in $CHECKS; do
   LINE=$(echo "$OUT" | grep '^VIOLATION' | head -1)
   SUMMARY=$(echo "$OUT" | tail -1)
   echo "check $C: violations_lines=$RC :: $LINE :: $SUMMARY"
-  [ "$RC" != 0 ] && mkdir -p /tmp/seedlog/benign-$K && cp -r $VS/replays /tmp/seedlog/benign-$K/ 2>/dev/null
+  [ "$RC" != 0 ] && mkdir -p /tmp/seedlog/$TAG-$K && cp -r $VS/replays /tmp/seedlog/$TAG-$K/ 2>/dev/null
   RES="$RES{\"check\":\"$C\",\"violation_lines\":$RC,\"first\":\"$(echo $LINE | sed 's/"/\\"/g')\",\"summary\":\"$(echo $SUMMARY | sed 's/"/\\"/g')\"},"
 done
-DEST=/verif/seeded/benign-$K
+DEST=/verif/seeded/$TAG-$K
 mkdir -p $DEST && cp "$SRC/patch.diff" $DEST/ && cp "$SRC/notes.md" $DEST/notes.md 2>/dev/null
 cat > $DEST/meta.json <<META
-{"property": "none (behaviour-preserving refactoring; every check must stay silent)", "change": "benign-$K",
+{"property": "none (behaviour-preserving refactoring; every check must stay silent)", "change": "$TAG-$K",
  "confirmed": {"tests_patched": "$TESTS"},
  "ran": "fresh worktree of /repo HEAD + git apply patch.diff; pytest; then 'VERIF_REPO=<worktree> ./check <id>' for the listed checks from a private copy of /verif",
  "checks": [${RES%,}]}
